@@ -399,7 +399,7 @@ func followRule(r *node, ctx *Ctx) (err error) {
 		}
 		// Assign result to destination.
 		err = ctx.set(r.dst, ctx.bufX, r.ins)
-	case len(r.dst) > 0 && len(r.src) > 0 && r.static:
+	case len(r.dst) > 0 && r.static:
 		// V2V node with static source.
 		// Just assign the source it to destination.
 		i := ctx.reserveBB()
